@@ -24,6 +24,10 @@ def main(argv):
             return 1
         print(f"NOT-REPRODUCED {argv[1]}")
         return 0
+    if cmd == "hashsc":
+        from .check import scenario_hashes
+        print(scenario_hashes(argv[1]))
+        return 0
     if cmd == "hashes":
         from .check import hashes_for
         print(json.dumps(hashes_for(argv[1], int(argv[2]))))
